@@ -153,10 +153,19 @@ LEVEL_TEXT = ('AsyncBackgroundBatcher is modelled as an executable macro-step st
     'inside Coq; the monitor ok_C04 judges the observed trace independently of the model (monitor_basic_complete / '
     'monitor_basic_sound: the state-free conjuncts — no TaskDied, completion clock, no double completion, non-empty '
     'duplicate-free batches not in the future — accept every model trace for all event lists and imply these facts; '
-    'monitor_sound_partial for the full monitor).')
+    'monitor_sound_partial for the full monitor). monitor_complete_nochain: the FULL monitor ok_C04 (expected late '
+    'answers, immediate answers, Cancelled only by Cancel, final no-hang rule) accepts every model trace with the '
+    "model's waiting list, for all configurations with batch_timeout > 0 and all event lists without Chain events "
+    '(simulation model state <-> monitor state, Case_Batcher_C04.v); monitor_sound_late_partial / monitor_sound_end: '
+    'model-free soundness — in an accepted trace every completion of an already waiting caller is justified by the '
+    "script (Cancel of that caller, or a batch-function event of an observed batch that still owes the caller's key, "
+    'with exactly the outcome that event produces for that key), and nobody waits once all observed batches ended and '
+    'batch_timeout elapsed.')
 LEVEL_NOTE = ('trusted: Coq kernel + vm_compute; asyncio primitives (Queue, wait_for, FIFO Semaphore, shield, Future '
     'done-callbacks, call_later, task wake-up order) are modelled in Batcher.v and validated only by the '
     'correspondence runs; harness/vloop.py, harness/batcher_drv.py, coq/theories/Case_Batcher.v (agree + monitors).  '
-    'The state-free conjuncts of the monitors (ok_basic) are proved complete and sound; full-monitor soundness is proved only for simple conjuncts (monitor_sound_partial); the other conjuncts are tied '
-    'to the theorems through agree (model trace = observed trace) on every case')
+    'The state-free conjuncts of the monitors (ok_basic) are proved complete and sound; the full monitors ok_C04 / '
+    'ok_C10 / ok_C11 are proved complete on Chain-free event lists (monitor_complete_nochain) and partially sound '
+    'model-free (monitor_sound_*); for scripts with Chain events the tie of the state-dependent conjuncts is agree '
+    '(model trace = observed trace) on every case')
 TECHNIQUE = 'Coq proof (inductive invariant over a macro-step model) + differential correspondence evaluated by vm_compute'
